@@ -166,6 +166,46 @@ func jobC14(c *rt.Ctx) {
 				}
 			}
 		}
+		// two-byte differences: every pair of byte positions x {same mask at both (differences that cancel
+		// under an xor-folded accumulator), +1/-1 (differences that cancel under a sum-folded one)}
+		if ki == 0 {
+			for _, which := range []string{"public", "private"} {
+				base := []byte(pub)
+				if which == "private" {
+					base = []byte(k)
+				}
+				for i := 0; i < len(base); i++ {
+					if !c.Take() {
+						continue
+					}
+					c.Class("equal/flip2")
+					c.Distinct(fmt.Sprintf("eq2 %s %d", which, i), true)
+					for j := i + 1; j < len(base); j++ {
+						for mi, m := range []byte{0x01, 0x80, 0xff, 0} {
+							o := append([]byte{}, base...)
+							if m != 0 {
+								o[i] ^= m
+								o[j] ^= m
+							} else {
+								o[i]++
+								o[j]--
+							}
+							c.Step(1)
+							var eq bool
+							if which == "private" {
+								eq = k.Equal(PrivateKey(o)) || PrivateKey(o).Equal(k)
+							} else {
+								eq = pub.Equal(PublicKey(o)) || PublicKey(o).Equal(pub)
+							}
+							if eq {
+								c.Violation(fmt.Sprintf("C14 equal %s two-byte difference", which), fmt.Sprintf("%s key Equal is true for keys differing in bytes %d and %d (pattern %d)", which, i, j, mi),
+									map[string]interface{}{"byte_i": i, "byte_j": j, "pattern": mi})
+							}
+						}
+					}
+				}
+			}
+		}
 		if !c.Take() {
 			continue
 		}
